@@ -182,6 +182,34 @@ theorem convertInts_dims : ∀ {shape : List Nat} {chunks : List Spec} {r : List
       · simp [Spec.isInt] at hs
       · simp only [sumsMatch, Bool.and_eq_true, beq_iff_eq] at hs; exact hs.1
 
+/-- no negative size goes in ⇒ no negative size comes out of `_convert_int_chunk_to_tuple` -/
+theorem convertInts_nonneg : ∀ {shape : List Nat} {chunks : List Spec} {r : List (List Int)},
+    convertInts shape chunks = .ok r → (∀ c ∈ chunks, c.isNeg = false) → ∀ d ∈ r, d.any (· < 0) = false
+  | [], _, r, h, _ => by simp [convertInts] at h; subst h; simp
+  | _ :: _, [], r, h, _ => by simp [convertInts] at h; subst h; simp
+  | s :: ss, c :: cs, r, h, hn => by
+    obtain ⟨d, rest, rfl, hrest, hd⟩ := convertInts_cons_ok h
+    intro d' hd'
+    rcases List.mem_cons.1 hd' with rfl | hmem
+    · have hc := hn c (by simp)
+      rcases convertOne_ok hd with ⟨bd, hcb, hb⟩ | hct
+      · have hbd : 0 ≤ bd := by
+          rcases hcb with rfl | rfl <;> simpa [Spec.isNeg] using hc
+        rcases Int.lt_or_eq_of_le hbd with hgt | heq
+        · have := (blockdims1_pos hgt hb).2
+          rw [List.any_eq_false]
+          intro x hx
+          rcases this with ⟨_, hp⟩ | hz
+          · have := hp x hx; simp; omega
+          · subst hz; simp at hx; subst hx; simp
+        · subst heq
+          unfold blockdims1 at hb
+          by_cases h0 : s = 0
+          · subst h0; simp at hb; subst hb; simp
+          · simp [h0] at hb
+      · subst hct; simpa [Spec.isNeg] using hc
+    · exact convertInts_nonneg hrest (fun c hc => hn c (by simp [hc])) d' hmem
+
 theorem fillFull_length : ∀ (cs : List Spec) (ss : List Nat), cs.length = ss.length → (fillFull cs ss).length = ss.length
   | [], [], _ => rfl
   | _ :: cs, _ :: ss, h => by simp [fillFull, fillFull_length cs ss (by simpa using h)]
@@ -193,26 +221,53 @@ theorem fillFull'_length (cs : List Spec) (ss : List Nat) (h : cs.length = ss.le
   · exact fillFull_length cs ss h
   · exact h
 
-theorem preNormalize_length {top shape limit chunks} (h : preNormalize top shape limit = .ok chunks)
-    (hne : shape ≠ []) : chunks.length = shape.length := by
+/-- what `preNormalize` returns when it returns: the filled-in entries, none of them negative -/
+theorem preNormalize_ok {top shape limit chunks} (h : preNormalize top shape limit = .ok chunks) :
+    ∃ c1, regroup1d shape.length (zeroFill (expandTop top shape.length) shape) = .ok c1 ∧
+      (shape.isEmpty = false → c1.length = shape.length) ∧
+      (fillFull' c1 shape).any Spec.isNeg = false ∧ chunks = (fillFull' c1 shape).map bytesToAuto := by
   unfold preNormalize at h
   cases h1 : regroup1d shape.length (zeroFill (expandTop top shape.length) shape) with
   | error e => simp [h1] at h
   | ok c1 =>
     simp only [h1] at h
-    have hs : shape.isEmpty = false := by cases shape <;> simp_all
-    by_cases hlen : c1.length = shape.length
-    · simp only [hs, hlen, ne_eq, not_true_eq_false, decide_false, Bool.and_false, Bool.false_eq_true, if_false] at h
-      cases h2 : resolveLimit (fillFull' c1 shape) limit with
-      | error e => simp [h2] at h
-      | ok l =>
-        simp only [h2] at h
-        injection h with h
-        rw [← h, List.length_map, fillFull'_length _ _ hlen]
-    · simp [hs, hlen] at h
+    refine ⟨c1, rfl, ?_⟩
+    split at h
+    · cases h
+    · rename_i hlen
+      split at h
+      · cases h
+      · rename_i hneg
+        cases h2 : resolveLimit (fillFull' c1 shape) limit with
+        | error e => simp [h2] at h
+        | ok l =>
+          simp only [h2] at h
+          injection h with h
+          refine ⟨fun hs => ?_, by simpa using hneg, h.symm⟩
+          simp only [hs, Bool.not_false, Bool.true_and, ne_eq, decide_not, Bool.not_eq_eq_eq_not, Bool.not_true,
+            decide_eq_false_iff_not, Decidable.not_not] at hlen
+          exact hlen
+
+theorem preNormalize_length {top shape limit chunks} (h : preNormalize top shape limit = .ok chunks)
+    (hne : shape ≠ []) : chunks.length = shape.length := by
+  obtain ⟨c1, _, hlen, _, rfl⟩ := preNormalize_ok h
+  have hs : shape.isEmpty = false := by cases shape <;> simp_all
+  rw [List.length_map, fillFull'_length _ _ (hlen hs)]
+
+theorem isNeg_bytesToAuto (c : Spec) : (bytesToAuto c).isNeg = c.isNeg := by
+  cases c <;> rfl
+
+theorem preNormalize_nonneg {top shape limit chunks} (h : preNormalize top shape limit = .ok chunks) :
+    ∀ c ∈ chunks, c.isNeg = false := by
+  obtain ⟨c1, _, _, hneg, rfl⟩ := preNormalize_ok h
+  intro c hc
+  obtain ⟨c0, hc0, rfl⟩ := List.mem_map.1 hc
+  rw [isNeg_bytesToAuto]
+  exact List.any_eq_false.1 hneg c0 hc0 |> fun h => by simpa using h
 
 theorem finalize_dims {shape chunks r} (h : finalize shape chunks = .ok r)
-    (hl : chunks.length = shape.length) (hne : shape ≠ []) : AllDims DimOK r shape := by
+    (hl : chunks.length = shape.length) (hne : shape ≠ []) (hnn : ∀ c ∈ chunks, c.isNeg = false) :
+    AllDims DimOK r shape := by
   unfold finalize at h
   have hce : chunks.isEmpty = false := by
     cases chunks with
@@ -223,7 +278,7 @@ theorem finalize_dims {shape chunks r} (h : finalize shape chunks = .ok r)
   | error e => simp [h1] at h
   | ok out =>
     simp only [h1] at h
-    by_cases hany : out.any (fun c => c.isEmpty || c.any (· < 0)) = true
+    by_cases hany : out.any List.isEmpty = true
     · simp [hany] at h
     · simp only [hany] at h
       by_cases hs : (!chunks.all Spec.isInt && !sumsMatch out shape) = true
@@ -231,9 +286,17 @@ theorem finalize_dims {shape chunks r} (h : finalize shape chunks = .ok r)
       · simp only [hs] at h
         injection h with h
         subst h
-        refine convertInts_dims h1 hl (by simpa using hany) ?_
+        have hneg := convertInts_nonneg h1 hnn
+        have hany' : out.any (fun c => c.isEmpty || c.any (· < 0)) = false := by
+          rw [List.any_eq_false]
+          intro d hd
+          have h1' : d.isEmpty = false := by
+            cases hde : d.isEmpty with
+            | false => rfl
+            | true => exact absurd (List.any_eq_true.2 ⟨d, hd, hde⟩) hany
+          simp [h1', hneg d hd]
+        refine convertInts_dims h1 hl hany' ?_
         cases ha : chunks.all Spec.isInt <;> cases hm : sumsMatch out shape <;> simp_all
-
 
 /-- explicit tuples are themselves normalised: all positive, or exactly `(0,)` -/
 def TupGood (chunks : List Spec) : Prop := ∀ t, Spec.tup t ∈ chunks → (∀ x ∈ t, 0 < x) ∨ t = [0]
@@ -266,8 +329,9 @@ theorem convertInts_valid : ∀ {shape : List Nat} {chunks : List Spec} {r : Lis
       · exact Or.inr hz
 
 theorem finalize_valid {shape chunks r} (h : finalize shape chunks = .ok r)
-    (hl : chunks.length = shape.length) (hne : shape ≠ []) (hg : TupGood chunks) : AllDims DimValid r shape := by
-  have hd := finalize_dims h hl hne
+    (hl : chunks.length = shape.length) (hne : shape ≠ []) (hnn : ∀ c ∈ chunks, c.isNeg = false)
+    (hg : TupGood chunks) : AllDims DimValid r shape := by
+  have hd := finalize_dims h hl hne hnn
   unfold finalize at h
   have hce : chunks.isEmpty = false := by
     cases chunks with
@@ -342,24 +406,12 @@ theorem TupGood.regroup1d {cs r : List Spec} {nd : Nat} (h : TupGood cs) (hf : F
 
 theorem preNormalize_tupGood {top shape limit chunks} (h : preNormalize top shape limit = .ok chunks)
     (hg : TupGood (expandTop top shape.length)) (hf : FlatGood (expandTop top shape.length)) : TupGood chunks := by
-  unfold preNormalize at h
-  cases h1 : regroup1d shape.length (zeroFill (expandTop top shape.length) shape) with
-  | error e => simp [h1] at h
-  | ok c1 =>
-    simp only [h1] at h
-    have hf' : FlatGood (zeroFill (expandTop top shape.length) shape) := by
-      unfold zeroFill; split
-      · intro i hi; rw [List.mem_replicate] at hi; cases hi.2
-      · exact hf
-    have g1 : TupGood c1 := (hg.zeroFill shape).regroup1d hf' h1
-    split at h
-    · cases h
-    · cases h2 : resolveLimit (Chunks.fillFull' c1 shape) limit with
-      | error e => simp [h2] at h
-      | ok l =>
-        simp only [h2] at h
-        injection h with h
-        subst h
-        exact (g1.fillFull' shape).map_bytesToAuto
+  obtain ⟨c1, h1, _, _, rfl⟩ := preNormalize_ok h
+  have hf' : FlatGood (zeroFill (expandTop top shape.length) shape) := by
+    unfold zeroFill; split
+    · intro i hi; rw [List.mem_replicate] at hi; cases hi.2
+    · exact hf
+  have g1 : TupGood c1 := (hg.zeroFill shape).regroup1d hf' h1
+  exact (g1.fillFull' shape).map_bytesToAuto
 
 end Dask.Chunks
